@@ -33,7 +33,7 @@ func setKeys(s map[string]bool) []string {
 }
 
 func TestPropBloom(t *testing.T) {
-	rec.Check(t, 15000, 300000, func(t *rapid.T) {
+	rec.Check(t, 25000, 300000, func(t *rapid.T) {
 		m := uint64(rapid.SampledFrom([]int{1, 8, 9, 64, 100, 256, 1000, 1024, 4096, 5000}).Draw(t, "m"))
 		k := uint64(rapid.IntRange(1, 7).Draw(t, "k"))
 		genKey := func(label string) []byte {
@@ -221,7 +221,7 @@ func TestPropBloom(t *testing.T) {
 		case mergedDifferent:
 			rec.Class("bloom:merge-of-different-sets")
 			rec.NonTrivial(fmt.Sprintf("bloom|%d|%d|%s", m, k, strings.Join(hist, " ")))
-			if rec.WantSample() && len(hist) < 16 {
+			if len(hist) < 16 && wantSample("bloom") {
 				rec.Sample(map[string]any{"structure": "bloom.Filter", "m": m, "k": k, "history": strings.Join(hist, " ")})
 			}
 		case merged:
